@@ -34,7 +34,7 @@ SPEC = dict(
           "event + distinct (failed step kind, position) pairs"),
     assumptions=["R7 (function expected() below) encodes the statement's pipeline; read-only VCS queries are ignored",
                  "hg is only observed up to the argv/log-file boundary (no hg binary here)"],
-    required=["runs", "noisy_hook_runs", "dirty_pattern_file_with_allow_dirty", "runs_with_mutating_trace", "fault_runs", "hook_env_checked", "contradictions_rejected",
+    required=["failed_add_of_a_file_whose_name_reads_like_a_vcs_message", "runs", "noisy_hook_runs", "dirty_pattern_file_with_allow_dirty", "runs_with_mutating_trace", "fault_runs", "hook_env_checked", "contradictions_rejected",
               "dry_runs", "no_fetch_runs", "vcs:git", "vcs:hg", "failed_step:commit", "failed_step:tag",
               "failed_step:pre-hook", "order_by_checksum_checked"],
     anchors=[("cli", "_parse_vcs_options"), ("cli", "_update"), ("vcs", "commit"), ("hooks", "run"),
@@ -80,6 +80,8 @@ def cases(ctx):
             f.update(fetch=1, remote=1)
         f.update(cfg_commit=1, cfg_tag=R.choice([0, 1, 1, 2]), cfg_push=R.choice([0, 1, 2]), cli_commit=R.choice([0, 1]), cli_tag=R.choice([0, 0, 1]),
                  cli_push=R.choice([0, 0, 1]), dirty=0, dry=0, pre=R.choice([0, 1]), post=R.choice([0, 1]))
+        if len(bases) % 4 == 1:
+            f["odd_name"] = 1
         bases.append(f)
     for k, f in enumerate(bases):
         if ctx.mine(k):
@@ -164,6 +166,11 @@ def versions(f):
     return ("1.2.3", "1.2.4")
 
 
+def afile(f):
+    """name of the first pattern file; fault bases also use a name that reads like a VCS message"""
+    return "already tracked!.txt" if f.get("odd_name") else "a.txt"
+
+
 def build(f):
     vcs = "hg" if f["vcs"] else "git"
     ex = extras(f)
@@ -180,8 +187,8 @@ def build(f):
     if f["post"] and not ex["hooks_via_cli"]:
         lines.append('post_commit_hook = "hook-post"')
     lines += ["", "[bumpver.file_patterns]", '"bumpver.toml" = [\'current_version = "{version}"\']',
-              '"a.txt" = ["version {version}"]', '"src/b.py" = [\'__version__ = "{version}"\']', ""]
-    files = {"bumpver.toml": "\n".join(lines), "a.txt": "hello\nversion 1.2.3\nbye\n",
+              f'"{afile(f)}" = ["version {{version}}"]', '"src/b.py" = [\'__version__ = "{version}"\']', ""]
+    files = {"bumpver.toml": "\n".join(lines), afile(f): "hello\nversion 1.2.3\nbye\n",
              "src/b.py": '# x\n__version__ = "1.2.3"\n', "other.txt": "unrelated\n"}
     # how the new version is requested: --patch, an explicit --set-version (uniqueness check over all tags),
     # or --patch with tag scope `branch` (uniqueness check too)
@@ -335,7 +342,7 @@ def check_trace(ctx, f, evs, res, exp, init_sums, final_sums, n_files, tag, faul
                                                              f"{'0' if exp['exit_ok'] else 'non-zero'} ({exp['rejected'] or ''})"))
         if "add" in kinds:
             added = sorted(e["argv"][-1] for k, e in seq if k == "add")
-            if added != sorted(["bumpver.toml", "a.txt", "src/b.py"]):
+            if added != sorted(["bumpver.toml", afile(f), "src/b.py"]):
                 problems.append(("staged_paths_wrong", f"{added}"))
     return problems
 
@@ -449,7 +456,9 @@ def run_case(ctx, case):
                               f"{k}-th call ({label}) made to fail: update exits 0 and announces {vers}, the tags on disk say "
                               f"{versions(f)} | factors={f} argv={args}", case={"kind": "faults", "f": f})
         if kind in ("add", "commit", "tag", "push", "pre-hook", "post-hook") and res.exit_code == 0:
-            if not (kind == "add" and f["vcs"]):
+            if True:
+                if f.get("odd_name") and kind == "add":
+                    ctx.count("failed_add_of_a_file_whose_name_reads_like_a_vcs_message")
                 ctx.violation("other:fault:exit_0_after_failed_step", f"{label} failed but exit 0 | factors={f}",
                               case={"kind": "faults", "f": f})
 
